@@ -111,6 +111,7 @@ package bundle
 //@     invariant fresh(requests)
 //@     invariant forall x int :: 0 <= x && x < len(requests) ==> uint64(requests[x].Offset - respSectionOffset) + requests[x].Length <= respso.Length
 //@   loop 1:
+//@     invariant[value-array-count] numItems == 2*uint64(numVariantKeys) + 1
 //@     invariant fresh(requests)
 //@     invariant forall x int :: 0 <= x && x < len(requests) ==> uint64(requests[x].Offset - respSectionOffset) + requests[x].Length <= respso.Length
 
